@@ -627,4 +627,4 @@ func TestReal(t *testing.T) {
 	}
 }
 
-func TestReplay(t *testing.T) { core.Replay(t, messageCheck, txCheck, realCheck) }
+func TestReplay(t *testing.T) { core.Replay(t, messageCheck, txCheck, realCheck, concurrentCheck) }
